@@ -44,6 +44,12 @@ type HPACK struct {
 	// COMPRESSION_ERROR on a header that indexed one of them.
 	// https://tools.ietf.org/html/rfc7541#section-6.3
 	pendingSizeUpdate bool
+
+	// pendingMinSize is the smallest maximum size set since the last header
+	// block. When the size changed more than once the peer has to be told the
+	// smallest one first, because that is what the table was evicted down to.
+	// https://tools.ietf.org/html/rfc7541#section-4.2
+	pendingMinSize uint32
 }
 
 func headerFieldsToString(hfs []*HeaderField, indexOffset int) string {
@@ -110,6 +116,10 @@ func (hp *HPACK) Reset() {
 func (hp *HPACK) SetMaxTableSize(size uint32) {
 	if hp.maxTableSize == size && hp.maxTableSizeSettings == size {
 		return
+	}
+
+	if !hp.pendingSizeUpdate || size < hp.pendingMinSize {
+		hp.pendingMinSize = size
 	}
 
 	hp.maxTableSizeSettings = size
@@ -601,6 +611,10 @@ func (hp *HPACK) AppendHeader(dst []byte, hf *HeaderField, store bool) []byte {
 	// follows the change.
 	if hp.pendingSizeUpdate {
 		hp.pendingSizeUpdate = false
+
+		if hp.pendingMinSize < hp.maxTableSize {
+			dst = appendInt(append(dst, 0x20), 5, uint64(hp.pendingMinSize))
+		}
 
 		dst = appendInt(append(dst, 0x20), 5, uint64(hp.maxTableSize))
 	}
